@@ -234,3 +234,29 @@ Theorem C07_rasterize_total_in_range : forall rule W H es,
      length (m_buf m') = Z.to_nat (r_w b * r_h b + 1) /\ bytes_ok (m_buf m')).
 Proof. exact rasterize_total_in_range. Qed.
 Print Assumptions C07_rasterize_total_in_range.
+
+(* ---- and the path-level hypothesis too (PathRange.v) ---- *)
+Require Import RQ.UserSpace RQ.PathRange.
+
+(* (21) EVERY OPERATION RETURNS, stated with geometry only.  op_geom_in_range: for a filled or stroked path every point the
+   path builder uses is, after the current transform, a finite float with |x| <= 3998 px (nothing about y beyond
+   finiteness; True for the other operations).  From it: every curve edge add_quad produces - unchopped, chopped at its
+   extremum, or with the forced control point - is y-monotone with x within +-4000 px (Flocq), so by (19) no slope
+   wraps, so by (16) the operation returns.  No hypothesis about the rasteriser or about arithmetic is left. *)
+Theorem C07_every_operation_returns_in_range_partial : forall st o,
+  dt_wf st -> raster_ok st -> op_in_range st o -> op_geom_in_range st o ->
+  (exists st', step_op st o = Ok st' /\ dt_wf st' /\ raster_ok st') \/
+  step_op st o = Err PixelOverflow \/ step_op st o = Err DebugAssert.
+Proof. exact step_op_total_in_range. Qed.
+Print Assumptions C07_every_operation_returns_in_range_partial.
+
+(* (22) every call sequence from a fresh target, likewise *)
+Theorem C07_every_call_sequence_returns_in_range_partial : forall strict w h buf ops,
+  0 <= w <= i32_max -> 0 <= h <= i32_max -> w * h <= i32_max -> zlen buf = w * h -> Forall px_ok buf ->
+  run_ok_geom strict (dt_new w h buf) ops ->
+  match run_ops (dt_new w h buf) ops with
+  | Ok st' => dt_wf st' /\ raster_ok st' /\ all_premul st' /\ exists g, clip_inv st' g
+  | Err e => strict = false /\ (e = PixelOverflow \/ e = DebugAssert)
+  end.
+Proof. exact run_ops_total_in_range. Qed.
+Print Assumptions C07_every_call_sequence_returns_in_range_partial.
